@@ -96,6 +96,11 @@ pub fn candidates(prop: &str) -> Vec<Value> {
                 v.push(json!({"call": "thr_signcrypt", "group": g, "scheme": scheme_name(s), "kind": kind}));
             }}}
         }
+        "C14" => {
+            for g in ["G1", "G2"] { for kind in ["decrypt", "homomorphic", "proof_ok", "tamper_c1", "tamper_c2", "tamper_mp", "tamper_bp", "tamper_ch", "wrong_pk", "wrong_sk", "identity_pk"] {
+                v.push(json!({"call": "elgamal", "group": g, "kind": kind}));
+            }}
+        }
         "C10" => {
             for g in ["G1", "G2"] { for s in schemes() { for kind in ["complete", "other_challenge", "other_msg", "other_key", "tamper_u", "tamper_v", "ts_no_timeout", "ts_within", "ts_elapsed", "ts_altered", "ts_future", "ts_max"] {
                 v.push(json!({"call": "pok", "group": g, "scheme": scheme_name(s), "kind": kind}));
@@ -122,6 +127,7 @@ pub fn run(c: &Value) -> Option<String> {
         "aggregate" => by_group!(c, aggregate),
         "multi" => by_group!(c, multi),
         "pok" => by_group!(c, pok),
+        "elgamal" => by_group!(c, elgamal),
         "thr_signcrypt" => by_group!(c, thr_signcrypt),
         "timelock" => by_group!(c, timelock),
         "signcrypt" => by_group!(c, signcrypt),
@@ -519,5 +525,33 @@ fn thr_signcrypt<C: BlsSignatureImpl + PartialEq + Copy>(c: &Value, keys: &[Secr
         "other_ciphertext" => { let ct2 = pk.sign_crypt(s, b"another"); if ds[0].verify(&pks[0], &ct2).is_ok() { Some("share accepted for another ciphertext".into()) } else { None } }
         "t_shares_decrypt" => match Option::<Vec<u8>>::from(ct.decrypt_with_shares(&ds[..2])) { Some(p) if p == m => None, _ => Some("2 of 3 shares do not decrypt".into()) },
         _ => { let k = SignCryptDecryptionKey::<C>::from_shares(&ds[1..]).ok()?; match Option::<Vec<u8>>::from(k.decrypt(&ct)) { Some(p) if p == m => None, _ => Some("combined decryption key does not decrypt".into()) } }
+    }
+}
+
+fn elgamal<C: BlsSignatureImpl + PartialEq + Copy>(c: &Value, keys: &[SecretKey<C>]) -> Option<String> {
+    let sk = &keys[3]; let pk = sk.public_key();
+    let m1 = &keys[0]; let m2 = &keys[2];
+    let g = <C as BlsElGamal>::message_generator();
+    let one = <<C as Pairing>::PublicKey as Group>::Scalar::ONE;
+    let gp = <C as Pairing>::PublicKey::generator();
+    match c["kind"].as_str().unwrap() {
+        "decrypt" => { for m in [m1, m2, &keys[4]] { let ct = pk.encrypt_key_el_gamal(m).ok()?; if <C as BlsElGamal>::decrypt(sk.0, ct.c1, ct.c2) != g * m.0 { return Some("decrypt(encrypt(m)) != m * generator".into()); } } None }
+        "homomorphic" => { let a = pk.encrypt_key_el_gamal(m1).ok()?; let b = pk.encrypt_key_el_gamal(m2).ok()?; let s = a + b; if <C as BlsElGamal>::decrypt(sk.0, s.c1, s.c2) != g * (m1.0 + m2.0) { Some("sum of ciphertexts does not decrypt to the sum".into()) } else { None } }
+        kind => {
+            let p = match pk.encrypt_key_el_gamal_with_proof(m1) { Ok(p) => p, Err(e) => return Some(format!("proof generation failed: {}", e)) };
+            let mut t = p;
+            match kind {
+                "proof_ok" => { if let Err(e) = p.verify(pk) { return Some(format!("honest proof rejected: {}", e)); } return match p.verify_and_decrypt(sk) { Ok(x) if x == g * m1.0 => None, _ => Some("verify_and_decrypt of an honest proof fails".into()) }; }
+                "tamper_c1" => t.ciphertext.c1 = t.ciphertext.c1 + gp,
+                "tamper_c2" => t.ciphertext.c2 = t.ciphertext.c2 + gp,
+                "tamper_mp" => t.message_proof = t.message_proof + one,
+                "tamper_bp" => t.blinder_proof = t.blinder_proof + one,
+                "tamper_ch" => t.challenge = t.challenge + one,
+                "wrong_pk" => return if p.verify(keys[4].public_key()).is_ok() { Some("proof verifies for another key".into()) } else { None },
+                "wrong_sk" => return if p.verify_and_decrypt(&keys[4]).is_ok() { Some("verify_and_decrypt with another key succeeds".into()) } else { None },
+                _ => return if PublicKey::<C>(<C as Pairing>::PublicKey::identity()).encrypt_key_el_gamal_with_proof(m1).is_ok() { Some("encryption with proof to the identity key accepted".into()) } else { None },
+            }
+            if t.verify(pk).is_ok() { Some(format!("{}: altered proof accepted", kind)) } else { None }
+        }
     }
 }
